@@ -364,3 +364,11 @@ Definition expected_metrics_null : list (string * string) :=
 
 Definition expected_futures_init : list (string * string) :=
   [ ("<module>", "8d83fc67d5e704754012") ].
+
+Definition expected_asyncio : list (string * string) :=
+  [ ("AsyncioExecutor.__init__", "7e062af3ab81734fa37d");
+    ("AsyncioExecutor.submit", "f30a8fb45a406fb282c6");
+    ("AsyncioExecutor.submit_with_loop", "e7c467afbf87056bd909");
+    ("AsyncioExecutor.shutdown", "afb460a16f12ffe76291");
+    ("<class AsyncioExecutor>", "76ffbf9760405d58036a");
+    ("<module>", "daf176811b409e3a5fa6") ].
